@@ -28,6 +28,7 @@ THEOREMS = ["Ymq.C12." + t for t in (
 HYPOTHESES = []
 PROFILES = ["release", "chk"]
 TIMEOUT = 60.0
+SELECT_FUEL = 20000   # iterations of the sampling loop of select_a granted to the model, per requested A value
 BRUTE = 400          # primes up to this bound: the root set is enumerated over all residues
 
 RULE = ("n = product of two random primes, the residue class mod 8 forced (1, 3, 5, 7; 2 and 6 through even multipliers), 24..200 bits quick / "
@@ -114,6 +115,9 @@ def _followup(case, ans):
         selr = "-" if sel == "-" else ",".join(sq[p] for p in sel.split(","))
         spec = a[7:10] if op == "siqs_walk" else a[6:9]
         return (f"siqs_walk_m {h['N']} {h['mm']} {h['so']} {h['fb']} {h['sq']} {sel} {selr} {h['a']} {spec[0]} {spec[1]} {spec[2]}", body)
+    if op == "siqs_select":
+        want = int(h["want"])
+        return (f"siqs_select_m {h['N']} {h['nf']} {h['mm']} {want} {SELECT_FUEL * max(want, 1) + 100} {h['fb']} {h['sq']}", body)
     if op == "mpqs_poly":
         return (f"mpqs_poly_m {h['N']} {h['d']} {h['r']} {h['so']} {h['fb']} {h['sq']}", body)
     if op == "mpqs_batchinv":
@@ -301,6 +305,39 @@ def oracle_mpqs(case, h, body):
     return None
 
 
+def oracle_select(case, h, body):
+    """what the rest of the property relies on: the selection consists of distinct primes of the factor base (not the first one)
+    with non-zero root, and every A is a product of exactly nfacs distinct selected primes; the list is increasing, without
+    repetition and at most `want` long; on the sampling path A lies below 4 * target"""
+    N = int(h["N"])
+    fb, sq = ints(h["fb"]), ints(h["sq"])
+    msg = check_fbase(N, fb, sq)
+    if msg:
+        return msg
+    if body.endswith("sel-panic") or body.endswith("a-panic"):
+        if case.args[2:5] == ["auto", "auto", "auto"] and case.args[5] == "auto" and N.bit_length() < 425:
+            return "panic in select_siqs_factors/select_a with the driver's own parameters"
+        return None
+    kv = dict(t.split("=", 1) for t in body.split(" "))
+    tgt, sel, As = int(kv["tgt"]), ints(kv["sel"]), ints(kv["as"])
+    nf, want = int(h["nf"]), int(h["want"])
+    roots = dict(zip(fb, sq))
+    if any(p not in roots or roots[p] == 0 or p == fb[0] for p in sel) or sel != sorted(set(sel)):
+        return "selection is not an increasing list of factor base primes with non-zero root"
+    if nf and len(sel) <= nf:
+        return "selection not larger than nfacs"
+    if As != sorted(set(As)) or len(As) > max(want, 1):
+        return "A values not increasing / more than requested"
+    small = nf <= 5 and tgt.bit_length() <= 66
+    for A in As:
+        fac = [p for p in sel if A % p == 0]
+        if math.prod(fac) != A or len(fac) != nf:
+            return f"A={A} is not a product of {nf} distinct selected primes"
+        if nf and not small and not 0 < A < 4 * tgt:
+            return f"A={A} outside (0, 4 target)"
+    return None
+
+
 def oracle_batchinv(case, h, body):
     fb = ints(h["fb"])
     ds = ints(h["ds"])
@@ -354,6 +391,8 @@ def oracle(case, ans):
     try:
         if case.op in ("siqs_walk", "siqs_custom"):
             return oracle_siqs(case, h, body)
+        if case.op == "siqs_select":
+            return oracle_select(case, h, body)
         if case.op == "mpqs_poly":
             return oracle_mpqs(case, h, body)
         if case.op == "mpqs_batchinv":
@@ -486,6 +525,30 @@ def siqs_custom_cases(rng, tier, scale):
                    tag="custom-bad")
 
 
+def siqs_select_cases(rng, tier, scale):
+    """select_siqs_factors + select_a (deterministic: the generator of select_a has a fixed seed)"""
+    maxbits = 200 if tier == "quick" else 424
+    sizes = [24, 40, 56, 64, 72, 89, 90, 100, 119, 120, 140, 149, 150, 170, 200] + ([230, 260, 300, 330, 360, 400, 424] if maxbits > 200 else [])
+    for j in range(10 * scale):
+        bits = sizes[j % len(sizes)]
+        n = semiprime(rng, bits, rng.choice([1, 3, 5, 7]))
+        k = rng.choice([1, 1, 3, 5])
+        style = rng.randrange(4)
+        if style == 0 and bits <= 150:
+            yield Case(f"siqs_select {n} {k} auto auto auto auto", k=False, tag="sel-auto")
+        else:
+            fa = fb_auto((n * k).bit_length())
+            fbs = max(8, rng.choice([fa, fa // 2, fa // 8, 2 * fa, 40, 16]))
+            fbs = min(fbs, 8000)
+            nf = "auto" if style < 3 else max(1, nfactors((n * k).bit_length()) + rng.choice([-2, -1, 1, 2]))
+            mm = "auto" if style < 3 else rng.choice([4096, 32768, 262144])
+            yield Case(f"siqs_select {n} {k} {fbs} {nf} {mm} {rng.choice([1, 3, 8, 20])}", k=False, tag="sel")
+    # 17 factors and more (n*k of 425 bits and more): the mask of select_a has 64 bits; the checked profile stops at `1 << g`
+    for _ in range(2 if tier == "quick" else 6):
+        n = semiprime(rng, rng.choice([430, 440, 460]), rng.choice([1, 3, 5, 7]))
+        yield Case(f"siqs_select {n} 1 6000 auto auto 4", k=False, o=False, profiles=["chk"], tag="sel-17")
+
+
 def d_primes_3mod4(lo, count, N=None):
     """primes D = 3 mod 4 from lo on; with N: only those modulo which N is a non-zero square (the ones
     sieve_for_polys keeps)"""
@@ -586,6 +649,7 @@ def cases(tier, rng, extended=False):
         scale *= 4
     yield from siqs_cases(rng, tier, scale)
     yield from siqs_custom_cases(rng, tier, scale)
+    yield from siqs_select_cases(rng, tier, scale)
     yield from mpqs_cases(rng, tier, scale)
     yield from mpqs_outside(rng, scale)
     yield from qs_cases(rng, tier, scale)
@@ -596,6 +660,8 @@ def corpus_case(line):
         return Case(line[5:], k=False, o=False, profiles=["chk"])
     if line.startswith("!noo "):
         return Case(line[5:], k=False, o=False)
+    if line.startswith("!hang "):
+        return Case(line[6:], k=False, o=False, profiles=["release"], timeout=4)
     return Case(line, k=False)
 
 
@@ -628,6 +694,11 @@ def klass(case, ans):
         if N % 4 == 1:
             tags.append("t2-Ceven" if N % 8 == 1 else "t2-Codd")
         return f"siqs/n8={N % 8}/nf={nf}/" + "/".join(tags)
+    if op == "siqs_select":
+        nf = int(h["nf"])
+        path = "small" if "tgt=" in body and nf <= 5 and int(body.split("tgt=")[1].split(" ")[0]).bit_length() <= 66 else "sampling"
+        res = "sel-panic" if body.endswith("sel-panic") else "a-panic" if body.endswith("a-panic") else "ok"
+        return f"select/nf={nf}/{path}/{res}"
     if op == "mpqs_poly":
         d = int(h["d"])
         toks = body.split(" ")
